@@ -742,6 +742,37 @@ benign(
 )
 
 
+benign(
+    "c18-chatty-node",
+    "C18",
+    "bits/p2p.py",
+    """    def handle_verack_command(self, peer_no: int, command: bytes, payload: dict):
+        log.info("handle_verack_command: no action")
+""",
+    """    def handle_verack_command(self, peer_no: int, command: bytes, payload: dict):
+        # handshake complete: ask the peer for addresses and announce our liveness
+        self._peer_sockets[peer_no].sendall(msg_ser(MAGIC_START_BYTES, b"getaddr", b""))
+        self._peer_sockets[peer_no].sendall(msg_ser(MAGIC_START_BYTES, b"ping", ping_payload(peer_no + 1)))
+""",
+    runs=4000,
+)
+benign(
+    "c16-change-split-in-two",
+    "C16",
+    "bits/tx.py",
+    """        txouts.append(txout(int(total_amount - amount_to_send), change_scriptpubkey))
+""",
+    """        _chg = int(total_amount - amount_to_send)
+        if _chg >= 4000:
+            txouts.append(txout(_chg // 2, change_scriptpubkey))
+            txouts.append(txout(_chg - _chg // 2, change_scriptpubkey))
+        else:
+            txouts.append(txout(_chg, change_scriptpubkey))
+""",
+    runs=480,
+)
+
+
 def judge_benign(m, workers):
     root = _scratch_root()
     try:
